@@ -146,5 +146,9 @@ def check(ctx):
                         if label == "exc" and tnode not in rel and (tnode is gd.raise_ or _escapes(gd, tnode, rel)):
                             bad.append(s.lineno)
             ctx.ob("R5", f"{d.qual}::{kind}::on-cancellation", not bad, f"{d.qual}: cancelled at the await(s) on line(s) {sorted(set(bad))}, the function leaves without {kind}", d.loc)
+    # R6: the reply's identifier/name reach the descriptor intact: payload extraction is exact (shared with C04)
+    from .c04 import hello_payload_extraction, text_parts
+    hello_payload_extraction(ctx, repo, rule="R6")
+    text_parts(ctx, repo)
     ctx.note("NOT decided: return times relative to the configured waits (clock).")
     ctx.assume("replies are delivered to _async_on_discovered one at a time (consume loop, cooperative scheduling)")
